@@ -7,18 +7,30 @@ def groups(tier):
          Group('node.handshake', 'pow_node', 'C19/node.c', entry='h_handshake', replace=SHA, unwind=257, kind='constant-unwind',
                bound='fixed-width encoders (8-byte loops), clz 256 bits',
                clause='handshake_pow_valid accepts iff clz(SHA256(len|initiator|len|responder|be64(pub)|be64(nonce))) >= difficulty'),
-         Group('node.announce', 'pow_node', 'C19/node.c', entry='h_announce', replace=SHA, unwind=257, kind='constant-unwind',
+         Group('node.announce', 'pow_node', 'C19/node.c', entry='h_announce', replace=SHA, unwind=257, kind='constant-unwind', backend=['sat', 'cadical'],
                bound='fixed-width encoders; variable-length fields are symbolic and unbounded',
                clause='announce_pow_valid accepts iff clz(SHA256(encoding of chunk,peer,endpoint,manifest,shards,ttl,nonce)) >= difficulty')]
+    G += [Group('node.announce.solver', 'pow_node', 'C19/node.c', entry='h_announce_solver', enforce='compute_announce_pow', loop_contracts=True,
+                replace=SHA + ['announce_pow_valid'], unwind=34, kind='unbounded', backend=['sat', 'cadical'],
+                clause='a nonce compute_announce_pow reports was accepted by announce_pow_valid for this payload and difficulty'),
+          Group('node.handshake.solver', 'pow_node', 'C19/node.c', entry='h_handshake_solver', enforce='compute_handshake_pow', loop_contracts=True,
+                replace=SHA + ['handshake_pow_valid'], unwind=34, kind='unbounded', backend=['sat', 'cadical'],
+                clause='a nonce compute_handshake_pow reports was accepted by handshake_pow_valid for the same ids, key and difficulty')]
     G += [Group('store.clz', 'pow_store', 'C19/store.c', entry='h_clz', unwind=257, kind='constant-unwind', bound='<=32 bytes x 8 bits',
                 clause='StoreProof count_leading_zero_bits == clz for every digest'),
           Group('store.valid', 'pow_store', 'C19/store.c', entry='h_store', replace=SHA, unwind=257, kind='constant-unwind',
                 bound='fixed-width encoders; filename length symbolic and unbounded',
                 clause='store_pow_valid accepts iff clz(SHA256(chunk id|be64 size|be32 len|filename|be64 nonce)) >= min(difficulty,24)'),
+          Group('store.solver', 'pow_store', 'C19/store.c', entry='h_solver', enforce='security__compute_store_pow', loop_contracts=True,
+                replace=SHA + ['security__store_pow_valid'], unwind=34, kind='unbounded', backend=['sat', 'cadical'],
+                clause='every nonce compute_store_pow returns was accepted by store_pow_valid for the same input and effective difficulty (any attempt budget; PRNG opaque)'),
           Group('cli.clz', 'pow_cli', 'C19/cli.c', entry='h_clz', unwind=257, kind='constant-unwind', bound='<=32 bytes x 8 bits',
                 clause='CLI count_leading_zero_bits == clz for every digest'),
           Group('cli.transport', 'pow_cli', 'C19/cli.c', entry='h_transport', replace=SHA, unwind=257, kind='constant-unwind',
                 bound='fixed-width encoders', clause='CLI transport_pow_valid hashes exactly the node encoding and accepts iff clz >= difficulty'),
+          Group('cli.transport.solver', 'pow_cli', 'C19/cli.c', entry='h_transport_solver', enforce='compute_transport_pow', loop_contracts=True,
+                replace=SHA + ['transport_pow_valid'], unwind=34, kind='unbounded', backend=['sat', 'cadical'],
+                clause='a nonce the CLI solver returns was accepted by transport_pow_valid for the same ids, key and difficulty'),
           Group('token.meets', 'pow_token', 'C19/token.c', entry='h_token', unwind=257, kind='constant-unwind', bound='<=32 bytes',
                 clause='digest_meets_difficulty == (clz(digest) >= bits) for every digest length <= 32 and bits 0..255')]
     return G
